@@ -1300,6 +1300,11 @@ func c10R4(c *Check, sr *storeRoles) {
 					if d == 0 {
 						return
 					}
+					if r := resolveCell(v); r != v {
+						// a local cell or a field of a struct built here (the two timeouts bundled in a small value)
+						walk(r, d-1)
+						return
+					}
 					switch x := v.(type) {
 					case *ssa.BinOp:
 						walk(x.X, d-1)
@@ -1388,7 +1393,6 @@ func c10R4(c *Check, sr *storeRoles) {
 	c.Obl(reg, "C10.R4", "registered-in-main", P.Pos(main.Pos()), "the session store factory is registered as a run.Group unit (its PreRun builds the stores)",
 		"the session store factory is not registered with the run.Group in main: PreRun never builds the stores with the configured timeouts")
 }
-
 
 // helperPassesRefresher: every return of h whose error may be nil is the refresher's own result or is
 // dominated by a refresher call with err == nil.
